@@ -796,7 +796,7 @@ namespace foonathan
             {
             public:
                 builder(detail::joint_stack& stack, T* ptr) noexcept
-                : stack_(&stack), objects_(ptr), size_(0u)
+                : stack_(&stack), objects_(ptr), size_(0u), released_(false)
                 {
                 }
 
@@ -805,7 +805,8 @@ namespace foonathan
                     for (std::size_t i = 0u; i != size_; ++i)
                         objects_[i].~T();
 
-                    if (size_)
+                    // also if the very first constructor has thrown
+                    if (!released_)
                         stack_->unwind(objects_);
                 }
 
@@ -828,8 +829,9 @@ namespace foonathan
 
                 std::size_t release() noexcept
                 {
-                    auto res = size_;
-                    size_    = 0u;
+                    auto res  = size_;
+                    size_     = 0u;
+                    released_ = true;
                     return res;
                 }
 
@@ -837,6 +839,7 @@ namespace foonathan
                 detail::joint_stack* stack_;
                 T*                   objects_;
                 std::size_t          size_;
+                bool                 released_;
             };
 
             joint_array(detail::joint_stack& stack, std::size_t size)
